@@ -104,3 +104,10 @@ package node
 //@   props C04
 //@   modifies nothing
 //@   ensures result == n.Hash
+
+//@ func Root.Follows
+//@   props C13
+//@   requires r != nil && other != nil
+//@   modifies nothing
+//@   ensures result == (r.Type == other.Type && r.Namespace == other.Namespace && (r.Version == other.Version || r.Version == other.Version + 1 || (other.Version == 18446744073709551615 && r.Version == 0)))
+//@   note a root follows another iff same type and namespace and the version is equal or the direct successor (the successor is computed in uint64 arithmetic, so version 0 'follows' version 2^64-1)
